@@ -45,9 +45,11 @@ TRUSTED = [
     "gen/valid_ops.py: validity BY CONSTRUCTION of the generated documents (the specification side of the oracle); "
     "gen/violations.py: each injector breaks exactly the labelled rule",
     "the overlap theorems for the code /repo runs (Props/C06_overlap_memo*.lean, C06_head_memo.lean) are stated about "
-    "`overlapMemoRun` (memoised search folded over the typed enumeration); that it counts the same errors as the chain "
-    "run with the memoised search inside (`runM`, the model compared with the real validator) is not proved: "
-    "cross-checked on every rule-alone answer (`memo:alone-vs-chain`, failure `memo:theorem-function-differs-from-chain`)",
+    "`overlapMemoRun` (memoised search folded over the typed enumeration); for the rule run ALONE it is proved equal to the "
+    "chain with the memoised search inside (`runM`, the model compared with the real validator): Props/C06_overlap_memo_chain.lean "
+    "`runM_alone_eq` (and still cross-checked on every rule-alone answer: `memo:alone-vs-chain`); inside the full 26-rule "
+    "chain the overlap rule additionally loses the selection sets below a node another rule skipped - modelled by `runM`, "
+    "not covered by a theorem",
 ]
 
 VALIDATE = REPO / "src/py_gql/validation/validate.py"
